@@ -139,7 +139,8 @@ pub struct GenCtx<'a> {
     pub kinds: Vec<&'static str>,
     /// usable pool indices per op kind (same order as `kinds`)
     pub by_kind: Vec<Vec<u32>>,
-    /// per kind: ops whose cold run took < 120 us (candidates for medium-haul repetition)
+    /// per kind: ops with a small STATIC cost estimate (candidates for medium-haul repetition);
+    /// never derived from measured time, which would make generation irreproducible
     pub quick_by_kind: Vec<Vec<u32>>,
     /// non-poison projection ops on the thread-local instance (slot-targeted points)
     pub tl_slot_ops: Vec<u32>,
@@ -182,7 +183,7 @@ impl<'a> GenCtx<'a> {
             if p.poison.is_none() && matches!(p.op, Op::Forward { t: crate::ops::Target::Tl, .. } | Op::Inverse { t: crate::ops::Target::Tl, .. }) {
                 tl_slot_ops.push(i as u32);
             }
-            if refs[i].us < 120 {
+            if p.op.est_cost_us() <= 80 {
                 quick_by_kind[k].push(i as u32);
             }
         }
